@@ -283,6 +283,9 @@ CheckOp(ev) ==
         vDump == IF ev.op = "DumpLoad" /\ x.def /\ ~ev.panic
                  THEN (IF SetOf(ev.alive2) # Alive(w) THEN {V("C17.alive", ev.alive2)} ELSE {})
                       \cup (IF ev.ret # ev.ret2 THEN {V("C17.next-handle", <<ev.ret, ev.ret2>>)} ELSE {})
+                      \* the same dump loaded a second time, after the first loaded world went on living
+                      \cup (IF SetOf(ev.alive3) # Alive(w) THEN {V("C17.alive", <<"second load", ev.alive3>>)} ELSE {})
+                      \cup (IF ev.ret # ev.ret3 THEN {V("C17.next-handle", <<"second load", ev.ret, ev.ret3>>)} ELSE {})
                       \cup {V("C17.codec", ev.codec[i]) : i \in {j \in DOMAIN ev.codec :
                                 ev.codec[j][2] # ev.codec[j][1] \/ ev.codec[j][3] # ev.codec[j][1]}}
                       \cup (IF ev.binok # <<8>> THEN {V("C17.malformed-accepted", ev.binok)} ELSE {})
